@@ -172,7 +172,7 @@ def patch_raw_capture():
     return orig
 
 
-def one_case(ctx, rec, kind, pos, now, sid, names, header_len, hs_support, legs, public, cases, chunked):
+def one_case(ctx, rec, kind, pos, now, sid, names, header_len, hs_support, legs, public, cases, chunked, reply_at_now=False):
     """kind: 'unprotect' | 'protect' | 'protect-rk'"""
     import dpapi_ng
     rng = ctx.rng
@@ -180,11 +180,12 @@ def one_case(ctx, rec, kind, pos, now, sid, names, header_len, hs_support, legs,
     sd = dpapi_ng._blob.ProtectionDescriptor.parse(sid).get_target_sd()
     now_ns = clientsim.time_ns_for(*now)
     inp = {"kind": kind, "hash": rec.hash_name, "alg": rec.secret_algorithm, "position": pos, "now": now, "sid": sid, "names": names, "header_len": header_len,
-           "header_sign": hs_support, "legs": legs, "public": public}
+           "header_sign": hs_support, "legs": legs, "public": public, "reply_at_now": reply_at_now}
 
     def new_dc():
         ks = refdc.KeyServer(now=now, domain=names[0], forest=names[1], public_for=(lambda s: True) if public else (lambda s: False))
         ks.add_root(rec)
+        ks.reply_at_now = reply_at_now
         return refserver.ReferenceDC(ks, acceptor_factory=lambda: refserver.ToyAcceptor(legs=legs, header_len=header_len, support_header_sign=hs_support))
 
     blob = None
@@ -201,7 +202,8 @@ def one_case(ctx, rec, kind, pos, now, sid, names, header_len, hs_support, legs,
     for flavour in ("sync", "async"):
         dc = new_dc()
         dcs[flavour] = dc
-        with online_world(dc, legs, header_len, now_ns, rng, chunked) as (providers, lookups):
+        with online_world(dc, legs, header_len, now_ns, rng, chunked) as (providers, lookups), toycrypto.recording() as rlog:
+            rlog.kdf_budget = 200          # a derivation that runs away is an error, not a hang
             try:
                 if kind == "unprotect":
                     f = (lambda: dpapi_ng.ncrypt_unprotect_secret(blob, server="dc01")) if flavour == "sync" else (lambda: asyncio.run(dpapi_ng.async_ncrypt_unprotect_secret(blob, server="dc01")))
@@ -273,6 +275,17 @@ def run(ctx):
                         one_case(ctx, rec, kind, rng.choice(positions), rng.choice(positions), rng.choice(sids), rng.choice(names), rng.choice([16, 28, 60, 76]),
                                  rng.random() < 0.7, rng.choice([2, 2, 3]), public, cases, chunked=rng.random() < 0.5)
                         n += 1
+        # every relation between the blob's position and the DC's clock (the reply is positioned by the DC's 'now'):
+        # same position, later L2 in the same L1, the next L1 with a smaller / larger L2, two L1s on, L2 = 31 shapes, the next L0
+        fast = [r for r in roots if r.secret_algorithm == "ECDH_P256"]
+        rel = [((361, 4, 3), (361, 4, 3)), ((361, 4, 3), (361, 4, 9)), ((361, 4, 3), (361, 5, 7)), ((361, 4, 9), (361, 5, 2)), ((361, 4, 3), (361, 6, 0)),
+               ((361, 4, 31), (361, 5, 0)), ((361, 4, 3), (361, 5, 31)), ((361, 4, 3), (361, 4, 31)), ((361, 31, 31), (362, 0, 0)), ((361, 0, 0), (361, 31, 31))]
+        for i, (pos, now) in enumerate(rel):
+            rec = fast[i % len(fast)]
+            for at_now in (False, True):
+                one_case(ctx, rec, "unprotect", pos, now, sids[0], names[2], 16, True, 2, False, cases, chunked=False, reply_at_now=at_now)
+                ctx.count("blob_vs_dc_clock_relation:" + ("reply positioned at the DC clock" if at_now else "reply positioned at the request"))
+                n += 1
         ctx.count("online_cases", n)
     finally:
         refserver.Connection.handle = orig
@@ -361,7 +374,7 @@ def replay(ctx, payload):
     orig = patch_raw_capture()
     c2 = type(ctx)(ctx.prop, "quick", ctx.seed)
     try:
-        one_case(c2, rec, v["kind"], tuple(v["position"]), tuple(v["now"]), v["sid"], tuple(v["names"]), v["header_len"], v["header_sign"], v["legs"], v["public"], [], False)
+        one_case(c2, rec, v["kind"], tuple(v["position"]), tuple(v["now"]), v["sid"], tuple(v["names"]), v["header_len"], v["header_sign"], v["legs"], v["public"], [], False, reply_at_now=v.get("reply_at_now", False))
     finally:
         refserver.Connection.handle = orig
     for x in c2.violations:
